@@ -152,6 +152,12 @@ class SFixed(Template[_FixedTemplateArg], AssignableType):
     def _adjust_val(cls, val):
         return int(Fraction(val) / Fraction(2) ** cls._exp)
 
+    @classmethod
+    @pyeval
+    def _is_exact(cls, val):
+        # val is a multiple of the weight of the least significant bit
+        return cls._adjust_val(val) * Fraction(2) ** cls._exp == Fraction(val)
+
     @pyeval
     def __repr__(self):
         val = TypeQualifier.decay(self._val).to_int() * 2**self._exp
@@ -232,6 +238,9 @@ class SFixed(Template[_FixedTemplateArg], AssignableType):
 
     def __eq__(self, other: int | float | SFixed):
         if isinstance(other, (int, float)):
+            if not self._is_exact(other):
+                # a number between two values of this format equals none of them
+                return False
             return type(self)(other) == self
         else:
             assert isinstance(other, SFixed)
@@ -488,6 +497,12 @@ class UFixed(Template[_FixedTemplateArg], AssignableType):
     def _adjust_val(cls, val):
         return int(Fraction(val) / Fraction(2) ** cls._exp)
 
+    @classmethod
+    @pyeval
+    def _is_exact(cls, val):
+        # val is a multiple of the weight of the least significant bit
+        return cls._adjust_val(val) * Fraction(2) ** cls._exp == Fraction(val)
+
     @pyeval
     def __repr__(self):
         val = TypeQualifier.decay(self._val).to_int() * 2**self._exp
@@ -559,6 +574,9 @@ class UFixed(Template[_FixedTemplateArg], AssignableType):
 
     def __eq__(self, other: int | float | UFixed):
         if isinstance(other, (int, float)):
+            if not self._is_exact(other):
+                # a number between two values of this format equals none of them
+                return False
             return type(self)(other) == self
         else:
             assert isinstance(other, UFixed)
